@@ -61,7 +61,7 @@ func (leaf *leafNode) insert(key string) bool {
 		return false
 	}
 	i := leaf.searchBinary(key)
-	if leaf.slots[i] == key {
+	if i < leaf.size && leaf.slots[i] == key {
 		return true // already exists
 	}
 	copy(leaf.slots[i+1:], leaf.slots[i:])
